@@ -8,7 +8,9 @@ post : one ``solve()`` per case (closed form, alternating minimisation,
        the post-conditions of the property statement.  A third of the
        iterative cases with noise and a user with >= 2 streams are driven by
        the greedy stream-reduction wrapper (GreedStreamIASolver); the solution
-       it leaves in the wrapped solver is judged by the same post-conditions.
+       it leaves in the wrapped solver is judged by the same post-conditions;
+       another part by the brute-force stream search (BruteForceStreamIASolver,
+       layouts with at most 8 stream combinations).
 mono : equal powers, no noise: the leaked interference power after each
        further iteration (public API: ``initialize_with='fix'``,
        ``max_iterations=1``, repeated ``solve``) never increases.
@@ -184,6 +186,15 @@ def _post_case(draw, tier):
         # the same relations
         case["greedy"] = (cfg["noise"] is not None and max(Ns) >= 2 and
                           draw(st.integers(0, 2)) == 0)
+        # ... or by the brute-force stream search (every stream combination
+        # up to Ns; small layouts only: the number of combinations is
+        # prod(Ns))
+        prod = 1
+        for n in Ns:
+            prod *= n
+        case["brute"] = (not case["greedy"] and cfg["noise"] is not None and
+                         max(Ns) >= 2 and prod <= 8 and
+                         draw(st.integers(0, 2)) == 0)
     return case
 
 
@@ -724,6 +735,19 @@ def _check_post(case, ctx):
                                 "reduction from %r" % (n_list, before), tags)
             ctx.label("greedy_reduced" if n_list != before
                       else "greedy_kept_all")
+            return
+        if case.get("brute"):
+            from pyphysim.ia.algorithms import BruteForceStreamIASolver
+            before = [int(n) for n in Ns]
+            BruteForceStreamIASolver(solver).solve(
+                _ns_arg(case["ns_form"], Ns), p_arg)
+            tags = dict(tags, brute=True)
+            ctx.label("brute_force_wrapper")
+            n_list = _postconditions(ctx, solver, cls, cfg, H, P_exp, tags)
+            if any(a > b for a, b in zip(n_list, before)) or min(n_list) < 1:
+                raise Violation("brute_streams", "streams %r chosen by the "
+                                "brute force search up to %r" %
+                                (n_list, before), tags)
             return
         solver.solve(_ns_arg(case["ns_form"], Ns), p_arg)
         n_list = _postconditions(ctx, solver, cls, cfg, H, P_exp, tags)
